@@ -214,31 +214,40 @@ func LoadProg(dir string, overlay map[string][]byte) (*Prog, error) {
 					}
 				}
 			}
-			if total >= 0 {
-				// scalar replacement of newly introduced local structs (sroa.go)
+			// further normalisation steps, each validated by a re-check and undone if that fails (sroa.go)
+			steps := []struct {
+				name string
+				run  func(*pkgView, map[string]bool) (int, []string)
+			}{
+				{"loop unrolling", unrollPackage},
+				{"struct/array splitting", sroaPackage},
+			}
+			for _, step := range steps {
 				var snap []*ast.File
 				for _, f := range view.Syntax {
 					snap = append(snap, cloneAST(f).(*ast.File))
 				}
-				if n, log := sroaPackage(view, known[rel(pk.PkgPath)]); n > 0 {
-					tp2, info2, err := recheck(pk.PkgPath, pk.Fset, view.Syntax, imp, pk.TypesSizes)
-					if err == nil {
-						view.Types, view.TypesInfo = tp2, info2
-						p.NormalizeLog = append(p.NormalizeLog, log...)
-						if total == 0 {
-							total = 1
-						}
-					} else {
-						p.NormalizeLog = append(p.NormalizeLog, fmt.Sprintf("%s: struct splitting abandoned (%v)", rel(pk.PkgPath), err))
-						view.Syntax = snap
-						tp3, info3, err3 := recheck(pk.PkgPath, pk.Fset, snap, imp, pk.TypesSizes)
-						if err3 != nil {
-							return nil, fmt.Errorf("load: re-check of %s failed: %v", pk.PkgPath, err3)
-						}
-						view.Types, view.TypesInfo = tp3, info3
-						total = -1
-					}
+				n, log := step.run(view, known[rel(pk.PkgPath)])
+				if n == 0 {
+					continue
 				}
+				tp2, info2, err := recheck(pk.PkgPath, pk.Fset, view.Syntax, imp, pk.TypesSizes)
+				if err == nil {
+					view.Types, view.TypesInfo = tp2, info2
+					p.NormalizeLog = append(p.NormalizeLog, log...)
+					if total == 0 {
+						total = 1
+					}
+					continue
+				}
+				p.NormalizeLog = append(p.NormalizeLog, fmt.Sprintf("%s: %s abandoned (%v)", rel(pk.PkgPath), step.name, err))
+				view.Syntax = snap
+				tp3, info3, err3 := recheck(pk.PkgPath, pk.Fset, snap, imp, pk.TypesSizes)
+				if err3 != nil {
+					return nil, fmt.Errorf("load: re-check of %s failed: %v", pk.PkgPath, err3)
+				}
+				view.Types, view.TypesInfo = tp3, info3
+				total = -1
 			}
 			if total == 0 && depChanged {
 				tp2, info2, err := recheck(pk.PkgPath, pk.Fset, view.Syntax, imp, pk.TypesSizes)
